@@ -138,6 +138,25 @@ def step (st : St) (ts : List String) : St × String :=
     match unhex h with
     | some bs => doWrite st k (.bytes bs)
     | none => (st, "bad-op")
+  | ["wc", h] =>          -- char*
+    if st.reading then (st, "closed") else
+    match unhex h with
+    | some bs => doWrite st k (.cstr bs)
+    | none => (st, "bad-op")
+  | ["wca", h] =>         -- char[N], N = length + 1 (StreamBuffer only: it does not compile for File/Socket before 7c56539)
+    if st.reading then (st, "closed") else
+    match unhex h with
+    | some bs => if bs.length > 15 then (st, "bad-op") else if k != .sb then (st, "na") else doWrite st k (.cstr bs)
+    | none => (st, "bad-op")
+  | ["wcarr", tys, h] =>  -- T[N], 1 <= N <= 8 (StreamBuffer only)
+    if st.reading then (st, "closed") else
+    match parseTy tys, unhex h with
+    | some t, some bs =>
+      -- a `char[N]` is a C string for `operator<<` (ops `wc`/`wca`), not an array of items
+      if t == .ch ∨ bs.length % sizeofT t != 0 ∨ bs.length = 0 ∨ bs.length / sizeofT t > 8 then (st, "bad-op")
+      else if k != .sb then (st, "na")
+      else doWrite st k (.carray t (chunks (sizeofT t) bs))
+    | _, _ => (st, "bad-op")
   | ["wz", h] =>
     if st.reading then (st, "closed") else
     match unhex h with
